@@ -245,3 +245,72 @@ M('c08-json-getter-passes-character-count', 'C08', 'R10', 'falcon/request.py',
   """                BytesIO(param_bytes), MEDIA_JSON, len(param_bytes)
 """, """                BytesIO(param_bytes), MEDIA_JSON, len(param_value)
 """)
+
+# ---- wave 5: R11 a getter never tokenises a stored value again (s5-c08-1)
+_LIST_SIG = """        default: Optional[List[_T]] = None,
+    ) -> Optional[List[_T] | List[str]]:
+"""
+_LIST_WRAP = """            if not isinstance(items, list):
+                items = [items]
+"""
+# the seed: delimiter=None resolves to ',' under the csv option, then every item is split
+M2('c08-list-getter-default-delimiter-resplits', 'C08', 'R11', [
+    {'file': 'falcon/request.py', 'old': _LIST_SIG, 'new': """        default: Optional[List[_T]] = None,
+        delimiter: Optional[str] = None,
+    ) -> Optional[List[_T] | List[str]]:
+"""},
+    {'file': 'falcon/request.py', 'old': _LIST_WRAP, 'new': _LIST_WRAP + """
+            if delimiter is None and self.options.auto_parse_qs_csv:
+                delimiter = ','
+
+            if delimiter:
+                items = [elem for item in items for elem in item.split(delimiter)]
+"""}])
+# variant: the new keyword simply defaults to ','
+M2('c08-list-getter-delimiter-defaults-to-comma', 'C08', 'R11', [
+    {'file': 'falcon/request.py', 'old': _LIST_SIG, 'new': """        default: Optional[List[_T]] = None,
+        delimiter: str = ',',
+    ) -> Optional[List[_T] | List[str]]:
+"""},
+    {'file': 'falcon/request.py', 'old': _LIST_WRAP, 'new': _LIST_WRAP + """            if delimiter:
+                items = [elem for item in items for elem in item.split(delimiter)]
+"""}])
+# variant: the second split sits in a same-class helper
+M2('c08-list-getter-resplits-in-helper', 'C08', 'R11', [
+    {'file': 'falcon/request.py', 'old': _LIST_WRAP, 'new': _LIST_WRAP + """            items = self._split_csv_items(items)
+"""},
+    {'file': 'falcon/request.py', 'old': """    def get_param_as_datetime(
+        self,
+        name: str,
+        format_string: str = '%Y-%m-%dT%H:%M:%S%z',
+        required: bool = False,
+        store: StoreArg = None,
+        default: Optional[datetime] = None,
+    ) -> Optional[datetime]:
+""", 'new': """    def _split_csv_items(self, items: List[str]) -> List[str]:
+        if not self.options.auto_parse_qs_csv:
+            return items
+        return [elem for item in items for elem in item.split(',')]
+
+    def get_param_as_datetime(
+        self,
+        name: str,
+        format_string: str = '%Y-%m-%dT%H:%M:%S%z',
+        required: bool = False,
+        store: StoreArg = None,
+        default: Optional[datetime] = None,
+    ) -> Optional[datetime]:
+"""}])
+# variant: a scalar getter keeps only what follows the last comma of the (decoded) value
+M('c08-get-param-cuts-at-last-comma', 'C08', 'R11', 'falcon/request.py',
+  """                param = param[-1]
+
+            if store is not None:
+                store[name] = param
+""", """                param = param[-1]
+            elif self.options.auto_parse_qs_csv:
+                param = param.rpartition(',')[2]
+
+            if store is not None:
+                store[name] = param
+""")
